@@ -257,6 +257,9 @@ func (c14Fetcher) GetIP(context.Context) (net.IP, error) { return net.IPv4(203, 
 
 var c14ControlVar int
 
+// c14FiltersScenario is set on Linux (c14_filters_linux_test.go).
+var c14FiltersScenario func(r *hx.RNG) (c14Stats, error)
+
 func c14Child(t *testing.T, scenario string) {
 	seed, _ := strconv.ParseUint(os.Getenv("C14_SEED"), 10, 64)
 	budgetMs, _ := strconv.Atoi(os.Getenv("C14_BUDGET_MS"))
@@ -305,6 +308,16 @@ func c14Child(t *testing.T, scenario string) {
 			for _, st := range stats {
 				total.add(st)
 			}
+		case "filters": // concurrent capture-filter configuration on separate real sources
+			if c14FiltersScenario == nil {
+				total.runs++
+				break
+			}
+			st, err := c14FiltersScenario(r.Fork())
+			if err != nil {
+				t.Errorf("C14 child filters: %v", err)
+			}
+			total.add(st)
 		case "multi": // the real runTracerouteMulti + EnrichWithReverseDns -> GetReverseDnsForIPs
 			it, base := total.runs, r.U64()
 			// the stubs share nothing with each other (no harness-made happens-before between runs)
@@ -427,7 +440,7 @@ func TestC14(t *testing.T) {
 		t.Fatal("C14: control race not reported; is the test binary built with -race?")
 	}
 	rep.Hit("control:race-reported")
-	scenarios := []string{"sack", "icmp", "udp", "icmp6", "sendfail", "concurrent", "multi"}
+	scenarios := []string{"sack", "icmp", "udp", "icmp6", "sendfail", "concurrent", "multi", "filters"}
 	budget, rounds, deadline := 1500*time.Millisecond, 2, time.Now().Add(time.Hour)
 	if env.Thorough() {
 		budget, rounds, deadline = 5*time.Second, 1<<30, time.Now().Add(10*time.Minute)
@@ -447,7 +460,7 @@ func TestC14(t *testing.T) {
 				fmt.Sscanf(so[i:], "C14-CHILD scenario=%s seed=%d runs=%d sends=%d reads=%d accepted=%d", &s2, &sd, &runs, &sends, &reads, &accepted)
 			}
 			for i := 0; i < max(runs, 1); i++ {
-				rep.Case(sc, fmt.Sprintf("%d/%d", seed, i), runs > 0 && (sc == "multi" || sends >= 2*runs && reads >= runs),
+				rep.Case(sc, fmt.Sprintf("%d/%d", seed, i), runs > 0 && (sc == "multi" || sc == "filters" || sends >= 2*runs && reads >= runs),
 					map[string]any{"scenario": sc, "seed": seed, "runs": runs, "sends": sends, "receiver_reads": reads, "accepted": accepted})
 			}
 			rep.Hit("scenario:" + sc)
@@ -471,6 +484,15 @@ func TestC14(t *testing.T) {
 						Replay: map[string]any{"scenario": sc, "child_seed": seed, "stacks": stacks, "race_report": se,
 							"rerun": fmt.Sprintf("C14_SCENARIO=%s C14_SEED=%d C14_BUDGET_MS=%d GORACE='halt_on_error=1 exitcode=66' %s -test.run '^TestC14$'", sc, seed, budget.Milliseconds(), exe)}})
 				}
+			} else if exit != 0 && sc == "filters" && strings.Contains(so+se, "C14 child filters:") {
+				msg := so + se
+				if i := strings.Index(msg, "C14 child filters:"); i >= 0 {
+					msg = strings.SplitN(msg[i:], "\n", 2)[0]
+				}
+				rep.Violate(hx.Violation{Kind: "spec", What: "concurrent runs configuring their capture filters interfere (shared state in the filter construction): " + msg,
+					Sig:    map[string]string{"location": "capture-filter construction"},
+					Replay: map[string]any{"scenario": sc, "child_seed": seed, "output": msg,
+						"rerun": fmt.Sprintf("C14_SCENARIO=%s C14_SEED=%d C14_BUDGET_MS=%d %s -test.run '^TestC14$'", sc, seed, budget.Milliseconds(), exe)}})
 			} else if exit != 0 {
 				rep.Note("child %s seed %d exited %d without a race report: %s", sc, seed, exit, strings.TrimSpace(so+se))
 				t.Errorf("C14 child %s seed %d failed (exit %d) without a race report:\n%s\n%s", sc, seed, exit, so, se)
